@@ -3,6 +3,9 @@
 A component names an impl driver (impl/<driver>.c), generates case lines understood by both that
 driver and ocaml/modelrun, optionally normalises outputs, and optionally turns a disagreeing case
 into a witness that the *property itself* fails on the implementation (witness())."""
+import itertools
+import xml.parsers.expat
+
 import gens
 from vlib import hexs, unhex
 
@@ -61,7 +64,23 @@ class Utf8(Comp):
 XML_TOK = [b"&", b"&lt;", b"&gt;", b"&amp;", b"&apos;", b"&quot;", b"&#", b"&#x", b";", b"<", b">", b"\"", b"'", b"<![CDATA[", b"]]>",
            b"]", b"]]", b"&#65;", b"&#x41;", b"&#x1F600;", b"&#xD800;", b"&#0;", b"&#9;", b"&#4294967361;", b"&#xfffe;", b"&#xFDD0;",
            b"&#x10FFE;", b"&#x110000;", b"&#x;", b"&#xg;", b"&lt", b"&amp ", b" ", b"\n", b"\t", b"\r", b"a", b"\xc3\xa9",
-           b"\xe2\x82\xac", b"\xf0\x9f\x98\x80", b"\x01", b"\x80", b"\xc3", b"&#x0A;", b"&#00065;", b"&#x00000041;", b"x", b"1"]
+           b"\xe2\x82\xac", b"\xf0\x9f\x98\x80", b"\x01", b"\x80", b"\xc3", b"&#x0A;", b"&#00065;", b"&#x00000041;", b"x", b"1",
+           # what lyxml_dump_text writes for CR and (in attribute values) TAB, LF since 6fdbff2 / 47fa563, and relatives
+           b"&#xD;", b"&#x9;", b"&#xA;", b"&#xd;", b"&#xa;", b"&#13;", b"&#10;", b"&#xD", b"&#xD;&#xA;", b"\r\n"]
+
+# CR / TAB / LF rich payloads (regression cases of the former findings xml-cr, xml-attr-ws)
+WS_ALPHA = [b"\r", b"\n", b"\t", b" ", b"\r\n", b"a", b"&", b"<", b">", b"\"", b"'", b"]]>", b"\xc3\xa9", b"\xf0\x9f\x98\x80", b"\x7f"]
+
+
+def ws_rich_strings(rng, n):
+    """every string of length <= 3 over CR, LF, TAB, 'a', then n random ones over WS_ALPHA"""
+    out = []
+    for k in (1, 2, 3):
+        out += [b"".join(t) for t in itertools.product([b"\r", b"\n", b"\t", b"a"], repeat=k)]
+    out += [b"x\ry", b"a\tb\nc", b"a\tb\nc\r\n", b"\r", b"\r\n", b" \r ", b"\n\r"]
+    for _ in range(n):
+        out.append(b"".join(rng.choice(WS_ALPHA) for _ in range(rng.choice([1, 2, 3, 5, 8]))))
+    return out
 
 
 class XmlEsc(Comp):
@@ -78,7 +97,98 @@ class XmlEsc(Comp):
         for _ in range(self.n(tier, 400, 20000, scale)):
             s = gens.yang_string(rng) if rng.random() < 0.7 else gens.raw_bytes(rng, 8)
             L.append("xmlesc\t%d\t%s" % (rng.randrange(2), hexs(s)))
+        for s in ws_rich_strings(rng, self.n(tier, 200, 10000, scale)):
+            for a in (0, 1):
+                L.append("xmlesc\t%d\t%s" % (a, hexs(s)))
         return L
+
+
+class XmlEscStd(Comp):
+    """C12 oracle at function level: what lyxml_dump_text() writes for a string of XML characters, put into an element
+    (attribute=0) or between double quotes into an attribute (attribute=1), is read by expat (which does end-of-line
+    handling and attribute-value normalisation as XML 1.0 requires); expat must report exactly the string. Payloads are
+    rich in CR, TAB and LF: regression cases of the fixed findings xml-cr (6fdbff2) and xml-attr-ws (47fa563)."""
+    name = "xmlesc-std"
+    driver = "t_xml"
+    kinds = None
+    quick_sanitize = False
+    MAX_REPORTS = 6      # one broken escape fails hundreds of cases; report the first few (shortest first), leave room for others
+
+    def __init__(self):
+        self.reported = 0
+
+    def gen(self, rng, tier, scale=1.0):
+        L = []
+        strs = ws_rich_strings(rng, self.n(tier, 300, 20000, scale))
+        for _ in range(self.n(tier, 200, 10000, scale)):
+            s = gens.yang_string(rng)       # YANG characters = XML Chars
+            if b"\xef\xbf\xbe" not in s and b"\xef\xbf\xbf" not in s:
+                strs.append(s)
+        strs = sorted(set(strs), key=lambda b: (len(b), b))
+        for s in strs:
+            if s:
+                for a in (0, 1):
+                    L.append("xmlesc\t%d\t%s" % (a, hexs(s)))
+        return L
+
+    def judge(self, line, out):
+        j = self.judge1(line, out)
+        if j:
+            self.reported += 1
+            if self.reported > self.MAX_REPORTS:
+                return None
+        return j
+
+    def judge1(self, line, out):
+        f = line.split("\t")
+        attr, want = f[1] == "1", unhex(f[2])
+        try:
+            text = unhex(out)
+        except ValueError:
+            return (None, "lyxml_dump_text failed or crashed: " + out[:200])
+        doc = b'<?xml version="1.0" encoding="UTF-8"?>' + ((b'<a b="' + text + b'"/>') if attr else (b"<a>" + text + b"</a>"))
+        got = []
+        p = xml.parsers.expat.ParserCreate()
+        p.buffer_text = True
+        p.StartElementHandler = lambda name, attrs: got.append(attrs.get("b", "")) if attr else None
+        p.CharacterDataHandler = lambda data: got.append(data) if not attr else None
+        try:
+            p.Parse(doc, True)
+        except xml.parsers.expat.ExpatError as e:
+            return (None, "printed %s %r is not well-formed XML: %s" % ("attribute value" if attr else "content", text, e))
+        got = "".join(got).encode("utf-8")
+        if got != want:
+            return (None, "lyxml_dump_text(attribute=%d) wrote %r for %r; a conformant XML reader (expat) reads %r"
+                    % (attr, text, want, got))
+        return None
+
+
+_RT_SEARCH = []
+
+
+def xml_rt_search():
+    """search for a string whose function-level round trip lyxml_parse_value(lyxml_dump_text(s)) fails on the
+    implementation (driver command xmlrt); returns a description of the first (shortest) one or None. Run once."""
+    if _RT_SEARCH:
+        return _RT_SEARCH[0]
+    import random
+    import vlib
+    exe = vlib.build_driver("t_xml", "rel", "")
+    rng = random.Random(12)
+    strs = ws_rich_strings(rng, 400) + [bytes([b]) for b in range(1, 128) if b >= 32 or b in (9, 10, 13)]
+    strs += [s for s in (gens.yang_string(rng) for _ in range(400)) if s]
+    strs = sorted(set(strs), key=lambda b: (len(b), b))
+    lines = ["xmlrt\t%d\t%s" % (a, hexs(s)) for s in strs for a in (0, 1)]
+    outs, _ = vlib.run_cases(exe, lines, timeout=120)
+    found = None
+    for l, o in zip(lines, outs):
+        f = l.split("\t")
+        if o.split(" ")[:2] != [f[2], "1"]:
+            found = "lyxml_parse_value(lyxml_dump_text(%r, attribute=%s) + terminator) gives %s instead of the string (case %s)" \
+                    % (unhex(f[2]), f[1], o, l.replace("\t", " "))
+            break
+    _RT_SEARCH.append(found)
+    return found
 
 
 class XmlVal(Comp):
@@ -86,6 +196,12 @@ class XmlVal(Comp):
     name = "xmlval"
     driver = "t_xml"
     slice = "xml"
+
+    def witness(self, line, model_out, impl_out):
+        """the lexer departs from its model: is there a string that the printer/lexer pair of the implementation does
+        not round-trip (property C01 itself)?"""
+        d = xml_rt_search()
+        return (None, d) if d else None
 
     def gen(self, rng, tier, scale=1.0):
         L = []
@@ -108,4 +224,13 @@ class XmlVal(Comp):
         doc = b"a&lt;b&#x41;<![CDATA[x]y]]>\xc3\xa9&amp;\xf0\x9f\x98\x80&#65;<"
         for i in range(len(doc) + 1):
             L.append("xmlval\t60\t" + hexs(doc[:i]))
+        # printer then lexer (command xmlrt: value read, stopped at the terminator, white-space-only flag), on strings rich
+        # in CR/TAB/LF and white-space-only strings: ties the third component of C01_xml_text_roundtrip
+        strs = ws_rich_strings(rng, self.n(tier, 200, 10000, scale))
+        strs += [b"".join(rng.choice([b" ", b"\t", b"\n", b"\r"]) for _ in range(rng.randrange(1, 6))) for _ in range(60)]
+        strs += [gens.yang_string(rng) for _ in range(self.n(tier, 200, 10000, scale))]
+        for s in strs:
+            if s:
+                for a in (0, 1):
+                    L.append("xmlrt\t%d\t%s" % (a, hexs(s)))
         return L
